@@ -229,6 +229,13 @@ impl<S: 'static> FnOnceQueue<S> {
     /// passing them the given context object ref.  Leaves the queue
     /// empty, but with the same backing memory still allocated to
     /// aid in cache reuse.
+    // Storage (base address, length, capacity), for verification harnesses
+    #[cfg(feature = "uazu-stakker-verif")]
+    #[allow(dead_code)]
+    pub fn verif_storage(&self) -> (usize, usize, usize) {
+        (self.storage.base(), self.storage.len(), self.storage.cap())
+    }
+
     pub fn execute(&mut self, context: &mut S) {
         self.drain_for_each(|ptr| unsafe { (*ptr).call(context) });
     }
@@ -335,6 +342,11 @@ mod hvec {
         /// Return total capacity of the queue in bytes
         pub fn cap(&self) -> usize {
             self.cap
+        }
+
+        #[cfg(feature = "uazu-stakker-verif")]
+        pub fn base(&self) -> usize {
+            self.ptr as usize
         }
 
         /// Push a (VP,T) to the buffer.  If there isn't enough space,
